@@ -980,6 +980,20 @@ func inlineRound(p *Prog, overlay map[string][]byte, round int, shared bool) (ma
 			}
 			continue
 		}
+		// edits of one round must not touch each other: a site whose rewritten range meets one already taken waits
+		clash := false
+		for f, e := range es {
+			for _, x := range e {
+				for _, y := range edits[f] {
+					if x.start < y.end && y.start < x.end || x.start == y.start {
+						clash = true
+					}
+				}
+			}
+		}
+		if clash {
+			continue
+		}
 		usedStmt[s.host] = true
 		if s.thread != nil {
 			usedStmt[s.thread.ifStmt] = true
